@@ -70,7 +70,12 @@ type Run struct {
 	known        map[string]string // signature -> what
 	exhaustive   *bool
 	replayN      int
+	broken       string
 }
+
+// Broken marks the run as produced by a broken harness: Finish then exits 2
+// whatever else was observed (never a VIOLATION, never a pass).
+func (r *Run) Broken(why string) { r.mu.Lock(); r.broken = why; r.mu.Unlock() }
 
 // New parses -tier/-seed (falling back to VERIF_TIER / VERIF_SEED) and loads
 // the committed known-findings file.
@@ -312,6 +317,7 @@ func (r *Run) Finish(minNontrivial int) {
 		doc["assumptions"] = []string{}
 	}
 	evaluations, distinct, violations := r.evaluations, len(r.distinct), r.violations
+	broken := r.broken
 	r.mu.Unlock()
 
 	dir := filepath.Join(Root(), "evidence")
@@ -329,6 +335,10 @@ func (r *Run) Finish(minNontrivial int) {
 		r.ID, r.Tier, r.Seed, evaluations, distinct, violations, inc, time.Since(r.start).Seconds())
 	if violations > 0 {
 		os.Exit(1)
+	}
+	if broken != "" {
+		fmt.Printf("%s: harness broken: %s\n", r.ID, broken)
+		os.Exit(2)
 	}
 	if distinct < minNontrivial || evaluations == 0 {
 		fmt.Printf("%s: observed too little (distinct non-trivial %d < floor %d): check is broken or inconclusive\n",
